@@ -1,5 +1,5 @@
 (** Extraction of the netio engine (models + boolean spec checkers) to OCaml.
     Directives: ExtrOcamlBasic only (bool, option, unit, prod, list, sumbool, sumor). *)
 From Coq Require Import ExtrOcamlBasic.
-From Qv Require Import Common.Bytes Model.NetWriten Model.NetRead Spec.ReplySpec Spec.LineSpec.
-Extraction "m.ml" net_writen spec_ok_C10 run_reader shape_ok resync_ok sched_ok.
+From Qv Require Import Common.Bytes Model.NetWriten Model.NetRead Spec.ReplySpec Spec.LineSpec Proofs.NetReadClean.
+Extraction "m.ml" net_writen spec_ok_C10 run_reader shape_ok resync_ok sched_ok clean_stream spec_items.
